@@ -171,6 +171,12 @@ func propC02(r *kernel.Run) {
 				hist = append(hist, "re-register "+n.name)
 				r.Count("ops.reregister_node", 1)
 			}
+		case k == 2 && tp.Draw(4) == 0: // the operator replaces both roots at once (compromise response): nothing issued before counts any more
+			if _, err := rotation.RotateRootCertificates(srv.Ctx, srv.Storage, srv.Opts(nodeenrollment.WithReinitializeRoots(true))...); err != nil {
+				r.HarnessErr("reinitialize roots: %v", err)
+			}
+			hist = append(hist, "reinitialize roots")
+			r.Count("ops.reinitialize_roots", 1)
 		case k == 2: // time passes; the server rotates its roots when due
 			d := kernel.Pick(tp, 3*24*time.Hour, 8*24*time.Hour, 15*24*time.Hour)
 			r.Sleep(d)
@@ -394,8 +400,13 @@ func c02Adversary(r *kernel.Run, tp *kernel.Tape, w *Wire, srv *World, loader bo
 	if mix != "none" {
 		r.Count("fault.mixed_library_prefixes", 1)
 	}
-	prefKind := Pick2(tp, "valid", "valid", "garbage", "absent")
+	prefKind := Pick2(tp, "valid", "valid", "garbage", "absent", "servers-current-root")
 	switch prefKind {
+	case "servers-current-root":
+		// ask for the chain of whatever root the server holds as current now (public knowledge), whichever chain is presented
+		if roots, err := types.LoadRootCertificates(contextBG, srv.Inner, srv.Opts()...); err == nil {
+			alpn = append(alpn, nodeenrollment.CertificatePreferenceV1Prefix+keyID(roots.Current.PublicKeyPkix))
+		}
 	case "valid":
 		if len(adv.chain) > 1 {
 			if ca, err := x509.ParseCertificate(adv.chain[1]); err == nil {
